@@ -139,10 +139,10 @@ def run(ck: Check) -> int:
             'every parameter type of typegen.param_types (union depth <= 2) x every listed entrypoint x covering arguments; '
             'class = family|type skeleton')
     fams = G.type_families(ck.tier, ck.seed)
-    items = [(fam, ty, b['values_per_type']) for fam, tys in fams.items() for ty in tys]
+    items = [(fam, ty, b['values_per_type'] - (1 if (not ck.thorough() and fam in ('struct', 'struct_deep')) else 0)) for fam, tys in fams.items() for ty in tys]
     ptypes = [t for t in G.param_types('quick', ck.seed)]
     if not ck.thorough():
-        ptypes = [t for i, t in enumerate(ptypes) if sum(1 for _ in t.walk()) <= 5 or i % 6 == 0]
+        ptypes = [t for i, t in enumerate(ptypes) if sum(1 for _ in t.walk()) <= 5 or i % 8 == 0]
     ck.bound('types', len(items))
     ck.bound('parameter_types', len(ptypes))
     results = K.pmap(_dispatch, [('v', it) for it in items] + [('p', (t, 2 if ck.thorough() else 1)) for t in ptypes], chunk=32, fixed_hash=True)
